@@ -22,12 +22,33 @@ func init() {
 	vfHarnesses["C03_step"] = vfH_C03_step
 	vfHarnesses["C04_step"] = vfH_C04_step
 	vfHarnesses["C17_step"] = vfH_C17_step
+	vfHarnesses["C02_step_big"] = vfH_C02_step_big
+	vfHarnesses["C03_step_big"] = vfH_C03_step_big
+	vfHarnesses["C04_step_big"] = vfH_C04_step_big
+	vfHarnesses["C17_step_big"] = vfH_C17_step_big
+	vfHarnesses["C02_step_flags"] = vfH_C02_step_flags
+	vfHarnesses["C03_step_flags"] = vfH_C03_step_flags
+	vfHarnesses["C04_step_flags"] = vfH_C04_step_flags
+	vfHarnesses["C17_step_flags"] = vfH_C17_step_flags
 }
 
-func vfH_C02_step() { vfLkStep(vfOC02, 2) }
-func vfH_C03_step() { vfLkStep(vfOC03, 3) }
-func vfH_C04_step() { vfLkStep(vfOC04, 3) }
-func vfH_C17_step() { vfLkStep(vfOC17, 3) }
+func vfH_C02_step() { vfStepWide = 0; vfLkStep(vfOC02, 2) }
+func vfH_C03_step() { vfStepWide = 0; vfLkStep(vfOC03, 3) }
+func vfH_C04_step() { vfStepWide = 0; vfLkStep(vfOC04, 3) }
+func vfH_C17_step() { vfStepWide = 0; vfLkStep(vfOC17, 3) }
+
+// thorough tier: *_step_big: up to 4 holders and 3 queued requests;
+// *_step_flags: the step's LOCK also carries symbolic minute flags and the 0xffff time class.
+func vfH_C02_step_big()   { vfStepWide = 1; vfLkStep(vfOC02, 2) }
+func vfH_C03_step_big()   { vfStepWide = 1; vfLkStep(vfOC03, 3) }
+func vfH_C04_step_big()   { vfStepWide = 1; vfLkStep(vfOC04, 3) }
+func vfH_C17_step_big()   { vfStepWide = 1; vfLkStep(vfOC17, 3) }
+func vfH_C02_step_flags() { vfStepWide = 2; vfLkStep(vfOC02, 2) }
+func vfH_C03_step_flags() { vfStepWide = 2; vfLkStep(vfOC03, 3) }
+func vfH_C04_step_flags() { vfStepWide = 2; vfLkStep(vfOC04, 3) }
+func vfH_C17_step_flags() { vfStepWide = 2; vfLkStep(vfOC17, 3) }
+
+var vfStepWide int
 
 // vfTick advances the server clock by dt seconds, running for every elapsed
 // second exactly what checkTimeOut / checkExpried run (the real sweep bodies).
@@ -144,10 +165,16 @@ func vfLkStep(oracle int, nops int) {
 	vfUnlockPrio, vfLockPrio = false, false
 	env := vfNewEnv(2)
 	key := vfKey(1)
-	H := vfChoice("H", 4)
+	maxH, maxW, profile := 4, 3, vfPCore
+	if vfStepWide == 1 {
+		maxH, maxW = 5, 4
+	} else if vfStepWide == 2 {
+		profile = vfPCore | vfPMinute | vfPLongTimes
+	}
+	H := vfChoice("H", maxH)
 	W := 0
 	if H > 0 {
-		W = vfChoice("W", 3)
+		W = vfChoice("W", maxW)
 	}
 	op := vfChoice("op", nops)
 	// a clock step comes in two shapes: the holders expire first (E=3) and the queue is served, or the
@@ -176,7 +203,7 @@ func vfLkStep(oracle int, nops int) {
 	var cmd *protocol.LockCommand
 	switch op {
 	case 0:
-		cmd = env.symLock("c", key, vfStepLockId("lid", H, W), vfPCore)
+		cmd = env.symLock("c", key, vfStepLockId("lid", H, W), profile)
 		if oracle == vfOC02 {
 			vfAssume(cmd.Flag&0x03 == 0) // show/update are C06's subject
 		}
